@@ -39,6 +39,7 @@ CLAIMED = {
           "returns the exact quotient when it says so and otherwise a value within half a unit in its last place (C03_division_exact_when_reported, "
           "C03_division_correctly_rounded: loop invariant q*D + r = A*10^k, half-even rounding on every exit, unscale removes only factors of ten); "
           "the order of decimals is a total preorder and min / max return an argument that no argument undercuts / exceeds (C03_order_is_total_preorder, C03_min_max); "
+          "`%` is the truncated remainder with the sign of the dividend, exactly, at the common scale (C03_remainder_is_truncated; outside the known-finding region D21); "
           "decimal exactness of + - * % in C09. " + TIE + "Oracle: an independent denotation with exact rationals, every operator x "
           "every pair of a 46-value pool.", "Coq kernel; Value.v transcribes operator.rs/function.rs handlers; rust_decimal modelled (contract).",
           "Coq case-analysis proofs over the handler model + oracle-checked differential correspondence", "6/C03"),
@@ -72,7 +73,8 @@ CLAIMED = {
  "C07": C("Proof (Coq) for ARBITRARY handlers: the unselected branch of a conditional is irrelevant to value, state and log (C07_lazy); once a part "
           "fails the enclosing list / program / call / conditional / operator returns that failure with exactly the state at the failure, whatever stands "
           "to its right (C07_stop); operands left then right, handler last (C07_operands_in_order); every handler invocation logged once before its "
-          "script runs (C07_call_logged); the call log is append-only under evaluation - never an entry removed, reordered or rewritten (C07_log_append_only, "
+          "script runs (C07_call_logged); list elements, statements and map entries (key before value) run first-then-rest, each from the state its predecessor left, "
+          "and the values are assembled in that order (C07_sequences_left_to_right); the call log is append-only under evaluation - never an entry removed, reordered or rewritten (C07_log_append_only, "
           "by a generic invariant principle over the whole evaluator, Lemmas/ExecInv.v). " + TIE + "Fault enumeration: an Err injected at every invocation index of random trees; the call log is "
           "compared with a reference semantics.", "Coq kernel; Eval.v; scripted logging closures in the harness.",
           "Coq independence proofs over exec + fault-enumeration correspondence on call logs", "6/C07"),
@@ -115,10 +117,16 @@ CLAIMED = {
           "printer model's text as the printer's token image - completeness lemmas for every token shape (operators by greedy prefix extension, words, names with "
           "the call look-ahead, numbers through the decimal print/read round trip, strings, separators) composed along the printer's layout by induction over the "
           "tree. Lemma (B): parsing that token image gives back the tree (C12_round_trip_tokens). Proving (A) exposed defect D22 (operator words before , ; :), "
-          "repaired by fix c0513cb. The computable premises are evaluated by the extracted model on EVERY tree of every run (evidence: "
+          "repaired by fix c0513cb. AN ACCEPTED PROGRAM'S RENDERING IS ACCEPTED (C12_rendering_of_an_accepted_spelling_reparses, Lemmas/RoundTrip.v + "
+          "LeastNesting.v): for every table, every tree and EVERY spelling p of it that the grammar accepts (any redundant parentheses, `not (x OP y)`) "
+          "within the nesting limit, the tokens - and for lexically sane trees the text - that the printer writes are parsed back to the tree, because the "
+          "printer's parenthesisation needs the least nesting of all spellings (C12_printer_needs_least_nesting); this was false before fixes f0353e2 "
+          "(exact parentheses) and 9cbfd9a (nesting limit counts recursion only) - defect D23, the second half found by the failing proof. "
+          "The computable premises are evaluated by the extracted model on EVERY tree of every run (evidence: "
           "round_trip_theorem_side_conditions). Also proved: quote choice, the `x not OP y` spelling, parenthesisation of conditional / infix / postfix operands. "
           "Every run additionally decides the round trip on: every infix operator under every other on either side in plain and `not` form, prefix/postfix over "
-          "all compound operand kinds, strings with either quote, registered word operators in front of every separator, random trees. " + TIE,
+          "all compound operand kinds, strings with either quote, registered word operators in front of every separator, re-registration histories (levels next to and "
+          "on the built-in ones), programs at the nesting limit (redundant parentheses, chains in front of deep operands, 85 height amplifiers), random trees. " + TIE,
           "Coq kernel; Printer.v transcribes the expr family, Lexer.v the tokenizer; both tied to the code by the correspondence.",
           "Coq proof (tokenizer o printer = token image, parser o token image = id) + per-tree computable premises + exhaustive-nesting round-trip correspondence", "6/C12"),
  "C13": C("Proof (Coq), partial (runtime trusted). For ANY number of threads, ANY programs and EVERY schedule of the interleaving model (once-cell gate, "
@@ -140,7 +148,10 @@ CLAIMED = {
           "Coq invariant proofs + fault-enumeration correspondence", "6/C15"),
  "C16": C("Proof (Coq): parsing changes nothing but init (C16_parse_pure) and depends only on text and tables (C16_parse_deterministic), an assignment touches one "
           "name of one context and neither registries nor log (C16_assignment_frame); evaluating ANY program on context c leaves every other context "
-          "untouched unless a handler itself evaluates there (C16_other_contexts_untouched, generic invariant over the evaluator); the model has no hidden state by construction. The force of the check is the tie: "
+          "untouched unless a handler itself evaluates there (C16_other_contexts_untouched, generic invariant over the evaluator); THE RESULT DEPENDS ONLY ON TEXT, OWN CONTEXT AND "
+          "REGISTRATIONS (C16_unrelated_state_is_invisible, C16_ast_reevaluation; relational principle Lemmas/ExecRel.v): two states agreeing on registrations, handler scripts, "
+          "lock sets and every context but d (and on the call history only if some handler counts its invocations) give every program on a context other than d the same result "
+          "and agreeing final states, whatever the program and the handlers do; the model has no hidden state by construction - a cache inside the crate is what the tie looks for: "
           "histories over 3 contexts vs each context's own calls (reference semantics), the same calls concurrently, repeated evaluation, and 700 failing evaluations on one "
           "persistent thread followed by probes.", "Coq kernel.", "Coq frame lemmas + history / concurrency / soak correspondence", "6/C16"),
  "C17": C("Proof (Coq): integer() returns n exactly for every decimal denoting an integer n in the i64 range whatever its scale, and an error otherwise "
